@@ -96,6 +96,16 @@ example : runGraph8 P8 (SoftmaxKernel.expTable8 1717986918 1 dm8) [5, -3, 100, 1
 example : runGraph8 P8 (SoftmaxKernel.expTable8 1717986918 1 dm8) [17] = .ok [127] := by decide +kernel
 example : runGraph8 ⟨7, 0, 255, 0⟩ (SoftmaxKernel.expTable8 1717986918 1 dm8) [0, 255, 250, 251] =
     .ok (SoftmaxKernel.softmaxRow8 [0, 255, 250, 251] 1717986918 1 dm8 0 255) := by decide +kernel
+/-- the bound on the row length is needed: 512 equal int8 inputs give the sum of exponentials 512.0 = 2^28 in Q12.19,
+    `num_bits_over_unit` = 9 and the reference's `RoundingDivideByPOT` is called with exponent 32 (outside gemmlowp's `0 … 31`;
+    `Spec/Gemmlowp.roundingDivideByPOT` then yields 1 for every non-negative argument, C is undefined there), the NPU shifts by
+    32 and yields 0: every output differs by one (reference −127, decomposition −128 — the mathematically rounded value of
+    256/512 − 128 is either) -/
+theorem softmax8_depth512_witness :
+    runGraph8 P8 (SoftmaxKernel.expTable8 1717986918 1 dm8) (List.replicate 512 7) = .ok (List.replicate 512 (-128)) ∧
+    SoftmaxKernel.softmaxRow8 (List.replicate 512 7) 1717986918 1 dm8 (-128) 127 = List.replicate 512 (-127) := by
+  decide +kernel
+
 example : npuRecip 1234567890 = SoftmaxKernel.oneOverOnePlusX 1234567890 := by decide +kernel
 example : Inv 1610612736 1000000000 := ⟨by decide, by decide, by decide⟩
 
